@@ -722,7 +722,7 @@ func init() {
 	engine.Register(&engine.CheckDef{
 		ID:    "C02",
 		Level: "exploration",
-		Rule: "hand-built TLS 1.3 clients against the real InterceptingListener over a loopback socket, 15 virtual days after enrollment (one root expired, one valid): product of 9 capability dimensions (holds key 2 x certificate 7 x record 2 x nonce signature 4 x skip flag 2 x node-id hint 4 x client state 3 x certificate preference 3 x common name 2 = 80640; quick: all vectors with at most 3 dishonest coordinates); every single-bit flip and truncation of an honest ALPN-carried request; well-formed fetch handshakes (authorized and not) in 5 ALPN arrangements, none of which may yield a connection; BFS over register / remove / connect of two nodes with the real dialer; oracle: authenticated => possession proof, chain to a currently valid root, nonce (and state) signed by the key of a record the property says is consulted; " +
+		Rule: "hand-built TLS 1.3 clients against the real InterceptingListener over a loopback socket, 15 virtual days after enrollment (one root expired, one valid): product of 9 capability dimensions (holds key 2 x certificate 7 x record 2 x nonce signature 4 x skip flag 2 x node-id hint 4 x client state 3 x certificate preference 3 x common name 2 = 16128; quick: all vectors with at most 3 dishonest coordinates); every single-bit flip and truncation of an honest ALPN-carried request; well-formed fetch handshakes (authorized and not) in 5 ALPN arrangements, none of which may yield a connection; BFS over register / remove / connect of two nodes with the real dialer; oracle: authenticated => possession proof, chain to a currently valid root, nonce (and state) signed by the key of a record the property says is consulted; " +
 			"distinct_nontrivial counts handshakes (distinct by construction) that completed on the server side with a verdict",
 		Assumptions: []string{"forged = signed with another pool key; captured signatures are modelled by giving the adversary the signature but not the TLS key", "the honest vector must authenticate (vacuity guard), other entitled vectors may be rejected"},
 		Shards:      func(c *engine.Ctx) int { return 16 },
